@@ -212,6 +212,15 @@ def other_rules(F, res):
                                 memo[path] = True
             elif c.startswith(SRV) and c != path and respawns_all(c, depth + 1):
                 memo[path] = True
+            elif c.rsplit("::", 1)[-1] in ("for_each", "try_for_each", "fold") and t["args"]:
+                # the loop written as `<iterator over opened_files>.for_each(|uri| self.spawn_update_diagnostics(uri))`
+                dep = FL.depends(F, f, d_, t["args"][0])
+                if any(x.endswith("::keys") or x.endswith("::iter") for x in dep["calls"]) and "opened_files" in _fields_in(f, d_, dep):
+                    for a in t["args"][1:]:
+                        o = d_.origin_op(a)
+                        if o.get("k") == "agg" and o["rv"].get("closure") in F.fns and \
+                                any(callee(t2) == SRV + "spawn_update_diagnostics" for _b2, t2 in F.fns[o["rv"]["closure"]].calls()):
+                            memo[path] = True
         return memo[path]
 
     def _fields_in(f, d_, dep):
@@ -361,6 +370,13 @@ def cancelled_computation_publishes_nothing(F, res, rule="W12"):
     if SUD not in F.fns:
         raise FA.AnchorMissing(SUD)
     units = [p for p in sorted(F.fns) if p == SUD or p.startswith(SUD + "::{closure")]
+    # a closure body moved into a named function of the server (`Server::compute_diagnostics`) is still a unit, with its closures
+    for p in list(units):
+        for _b, t in F.fns[p].calls():
+            c = callee(t) or ""
+            if c.startswith("glas::server::") and c in F.fns and F.fns[c].blocks and c != SUD and \
+                    not c.endswith(("spawn_with_snapshot", "with_catch_unwind")) and c not in units:
+                units += [q for q in F.with_closures(c) if q not in units]
     res.floor("units of spawn_update_diagnostics", len(units), 4)
     computes = [p for p in units for _b, t in F.fns[p].calls() if callee(t) == "glas::handler::diagnostics"]
     res.floor("units of spawn_update_diagnostics that compute the diagnostics", len(computes), 1)
@@ -389,7 +405,7 @@ def cancelled_computation_publishes_nothing(F, res, rule="W12"):
                 continue
             n += 1
             ok = any(no is not None and yes is not None and no != yes and f.dominates(no, b) and not f.dominates(yes, b) for _tb, no, yes in tests)
-            res.ob(rule, "list-without-computation/%s/%s" % (p[len(SUD):] or "fn", PM.short(callee(t) or callee_def(t))),
+            res.ob(rule, "list-without-computation/%s/%s" % ((p[len(SUD):] if p.startswith(SUD) else FL.short(p)) or "fn", PM.short(callee(t) or callee_def(t))),
                    "a diagnostics list that is not the computation's own result is built only after the error was tested not to be "
                    "a cancellation (a cancelled computation publishes nothing: the task of the newer text may already have published)",
                    ok, where=f.loc(t["ln"]), how="Cancelled tests in this unit: %d; this call is dominated by the `no` edge of one: %s" % (len(tests), ok))
